@@ -404,6 +404,17 @@ func RunC04(c *Ctx) {
 		}
 	}
 	idx = e.explicitRanges(idx, false)
+	// two processes alternating twice (cubic in the number of hook points): thorough only
+	if c.Thorough() {
+		for pi, pr := range [][2]string{{"add", "add"}, {"add", "compactall"}, {"autocompact", "add"}, {"compactall", "add,add"}, {"add", "autocompact"}, {"compactall", "compactall"}} {
+			for ri, rec := range []eng.Recipe{{60, 0, 0}, {0, 0}} {
+				if c.Mine(idx) {
+					e.sweepPingPong("pingpong-sweep", idx, engCfg(pi+ri), rec, pr[0], pr[1], 2)
+				}
+				idx++
+			}
+		}
+	}
 	n := c.N(4000, 150000)
 	for i := 0; i < n; i++ {
 		if c.Mine(idx) {
@@ -489,6 +500,40 @@ func (e *engRunner) sweepStale(family string, idx int, gcfg gen.Cfg, rec eng.Rec
 		res := e.run(sc, family, idx)
 		n++
 		if res.SetupErr != nil || !pol.Paused {
+			break
+		}
+	}
+	return n
+}
+
+// sweepPingPong: A to k1, B to j, A to k2, B to the end, A to the end - for all k1 < k2 and j
+// on a stride (cubic, thorough tier only).
+func (e *engRunner) sweepPingPong(family string, idx int, gcfg gen.Cfg, rec eng.Recipe, aDesc, bDesc string, stride int) int {
+	n := 0
+	for k1 := 1; k1 < 120; k1 += stride {
+		any1 := false
+		for j := 1; j < 120; j += stride {
+			any2 := false
+			for k2 := k1 + 1; k2 < 160; k2 += stride {
+				ts := newTxnSource(gen.Mix(e.c.Seed, int64(idx)*1000+23), gcfg.HashSize())
+				pol := &eng.PingPong{A: 0, B: 1, K1: k1, J: j, K2: k2}
+				sc := &eng.Scenario{Name: fmt.Sprintf("A=[%s] to op %d, B=[%s] to op %d, A to op %d, B finishes, A finishes", aDesc, k1, bDesc, j, k2),
+					GCfg: gcfg, Init: rec, Scripts: [][]eng.Call{ts.mkCalls(aDesc), ts.mkCalls(bDesc)}, Policy: pol, SkipTmpWrites: true, PreOpen: true}
+				res := e.run(sc, family, idx)
+				n++
+				if res.SetupErr != nil {
+					return n
+				}
+				if !pol.Effective {
+					break
+				}
+				any2, any1 = true, true
+			}
+			if !any2 {
+				break
+			}
+		}
+		if !any1 {
 			break
 		}
 	}
